@@ -43,6 +43,24 @@ Proof.
   intros H; injection H as <-. reflexivity.
 Qed.
 
+(* idempotence at the level of the identifier, in the words of the statement: after a maximize that
+   returned true, a second maximize returns false and leaves the identifier (variants included) as it is *)
+Theorem C07_li_idem : forall x y,
+  wf_triple (li_lang x) (li_script x) (li_region x) = true ->
+  li_maximize the_tables x = Ok (true, y) -> li_maximize the_tables y = Ok (false, y).
+Proof.
+  intros x y Hwf H. pose proof (C07_true_changed x y H) as Hm.
+  destruct (C07_preserves _ _ _ _ Hwf Hm) as (l' & s' & r' & Ht & _).
+  injection Ht as Hl Hs Hr.
+  unfold li_maximize at 1. rewrite Hl, Hs, Hr.
+  rewrite Hl, Hs, Hr in Hm. rewrite (C07_idem _ _ _ _ _ _ Hm). reflexivity.
+Qed.
+Example C07_li_idem_ex : exists y,
+  li_maximize the_tables (mkLangId (Some (bs "en"%string)) None None (Some [bs "macos"%string])) = Ok (true, y)
+  /\ li_variants y = Some [bs "macos"%string].
+Proof. eexists. split; vm_compute; reflexivity. Qed.
+Print Assumptions C07_li_idem.
+
 (* non-vacuity: a well-formed triple that maximize does change *)
 Example C07_ex : wf_triple (Some (bs "en"%string)) None None = true
   /\ maximize the_tables (Some (bs "en"%string)) None None
